@@ -274,6 +274,10 @@ func vfGenTimeline(t *rapid.T, n int, ffc bool, resets bool) []vfDetFrame {
 		// the camera has just been powered on: time-on starts near 0 and the last FFC is the power-on FFC at time 0
 		on = uint32(rapid.SampledFrom([]int{0, 1, 500, 9000, 9900}).Draw(t, "on0"))
 	}
+	if rapid.IntRange(0, 7).Draw(t, "longuptime") == 0 {
+		// weeks of uptime: the millisecond counters approach and pass 2^31 (the camera's own counter has 32 bits)
+		on = rapid.SampledFrom([]uint32{1<<31 - 2000, 1 << 31, 3000000000, 1<<32 - 600000}).Draw(t, "uptime")
+	}
 	for i := range fr {
 		step := uint32(111)
 		if ffc {
